@@ -127,9 +127,14 @@ def generate(rng, tier, index):
             elif x < 0.8:
                 sc.append({'ver': list(ver), 'items': [
                     gen.gen_lifecycle(ctx, ver, ai)]})
-            elif x < 0.9:
+            elif x < 0.86:
                 sc.append({'ver': list(ver), 'items': [
                     gen.gen_use(ctx, ver, ai)]})
+            elif x < 0.93:
+                # "stateless" requests (status probes): they read and write
+                # the same per-request engine state as any other request
+                sc.append({'ver': list(ver), 'items': [
+                    gen.gen_misc(ctx, ver, ai)]})
             else:
                 sc.append({'ver': list(ver), 'items': [
                     gen.gen_attr_op(ctx, ver, ai)]})
